@@ -155,6 +155,9 @@ def block(draw, name, nrexcl, syntax, names=None, max_atoms=5, resname=None, non
         for sec in ("pairs", "exclusions", "position_restraints", "virtual_sites2"):
             if draw(st.integers(0, 5)) == 0:
                 need = NATOMS[sec]
+                if sec == "exclusions" and natoms >= 3 and draw(st.integers(0, 2)) == 0:
+                    # a line that excludes its first atom from two or three others
+                    need = draw(st.integers(3, min(4, natoms)))
                 if natoms >= need:
                     sel = draw(st.permutations(range(natoms)))[:need]
                     if sec in ("pairs", "exclusions") and set(sel) in [set(i["atoms"]) for i in inter if i["sec"] == sec]:
